@@ -155,6 +155,48 @@ def stale_merged_cache(claripy, drv, stats):
     return None
 
 
+def displaced_child_split(claripy, drv, stats):
+    """simplify() splits every child, also one that other children have displaced for some of its variables (a merged solver
+    still registered under b only): its parts must not displace the live children of x and y in turn -- the live child was
+    then taken for stale and skipped by the satisfiability check.  -> failure dict or None"""
+    import solverhist
+    c = claripy
+    u = solverhist.Universe(c, drv, tag="c12dc_")
+    x, y, z, b = u.x, u.y, u.z, u.b
+    ite = c.If(b, x, y)
+
+    def quiet(f):
+        try:
+            return f()
+        except c.errors.ClaripyError as ex:
+            return type(ex).__name__
+
+    for v, k in ((166, 4), (166, 5), (0x93, 2), (166, 3), (0x93, 1)):
+        s = c.SolverComposite()
+        for f in (lambda: s.eval(x // y == 11, 3, extra_constraints=[b]), lambda: s.eval(ite, 1, extra_constraints=[(x ^ y) == 7]),
+                  lambda: s.max(ite, signed=True), lambda: s.max(x ^ y, signed=True), lambda: s.min(ite),
+                  lambda: s.max(x ^ y, extra_constraints=[x == 13]), lambda: s.solution(ite, 2), lambda: s.eval(x // y == 11, 3),
+                  lambda: s.satisfiable(), lambda: s.min(c.LShR(x, 1))):
+            quiet(f)
+        cs = [c.Concat(x, y) == v, z < 5, y // c.ZeroExt(1, z) == k]
+        for con in cs:
+            s.add(con)
+        s.simplify()
+        stats["displaced_child_scenarios"] += 1
+        models = u.models(cs)
+        want = sorted(set(u.feasible(cs, c.LShR(x, 1)))) if models else "UnsatError"
+        got = quiet(lambda: sorted(s.eval(c.LShR(x, 1), 20)))
+        sat = quiet(lambda: s.satisfiable())
+        bad = composite_invariant(u, s, cs) if models else None
+        if got != want or sat != bool(models) or bad:
+            return {"what": "after simplify() of a composite with a displaced merged child: eval(LShR(x, 1), 20) = %s, enumeration says %s; "
+                            "satisfiable() = %s, enumeration says %s; %s" % (got, want, sat, bool(models), bad or ""),
+                    "constraints": [str(k_) for k_ in cs],
+                    "history": ["queries on x / y, If(b, x, y), x ^ y with and without extras", "add(x .. y == %d)" % v, "add(z < 5)",
+                                "add(y / (0#1 .. z) == %d)" % k, "simplify()", "eval(LShR(x, 1), 20)", "satisfiable()"]}
+    return None
+
+
 def cache_correspondence(claripy, drv, rng, stats, n):
     """the extracted invalidation rule against CompositedCacheMixin._store_child on real composites with a filled cache:
     the same cached entries must survive.  -> None | mismatch"""
@@ -232,6 +274,8 @@ def main(tier, seed, replay=None):
             fail = stale_child_merge(claripy, drv, stats)
         if not fail:
             fail = stale_merged_cache(claripy, drv, stats)
+        if not fail:
+            fail = displaced_child_split(claripy, drv, stats)
         if not fail:
             n2 = 80 if tier == "quick" else 1500
             fail = solverhist.cache_scenarios(claripy, drv, rng, facs, n2, report=rep, tag="c12cs")
